@@ -13,6 +13,7 @@ package main
 
 import (
 	"bufio"
+	"fmt"
 	"os"
 	"os/exec"
 	"path/filepath"
@@ -71,4 +72,71 @@ func tryReplay(prog *Program, prop, fn, name, kind, model, verifDir string) repl
 		return replayResult{Text: "the replay test for this counterexample class did not reproduce on the current tree:\n" + hdr + text}
 	}
 	return replayResult{Text: "no replay test for this obligation class; the model is attached"}
+}
+
+type replayRun struct {
+	fixed      bool
+	reproduced bool
+	test       string
+	entry      string
+	output     string
+	line       string
+}
+
+// replayRegression runs the replay tests named by the known-findings file for one property.
+func replayRegression(verifDir, prop string) []replayRun {
+	data, err := os.ReadFile(filepath.Join(verifDir, "known_findings.txt"))
+	if err != nil {
+		return nil
+	}
+	var out []replayRun
+	seen := map[string]bool{}
+	for _, line := range strings.Split(string(data), "\n") {
+		line = strings.TrimSpace(line)
+		fixed := strings.HasPrefix(line, "fixed:")
+		if !fixed && !strings.HasPrefix(line, "finding:") {
+			continue
+		}
+		if !strings.Contains(line, "property="+prop+" ") {
+			continue
+		}
+		for _, f := range strings.Fields(line) {
+			f = strings.TrimPrefix(f, "replay=")
+			if !strings.HasPrefix(f, "replaysrc/") || !strings.Contains(f, ":Test") {
+				continue
+			}
+			parts := strings.SplitN(strings.TrimPrefix(f, "replaysrc/"), "/", 2)
+			if len(parts) != 2 {
+				continue
+			}
+			dir := parts[0]
+			test := parts[1][strings.Index(parts[1], ":")+1:]
+			test = strings.TrimRight(test, ";,.")
+			key := dir + ":" + test + fmt.Sprint(fixed)
+			if seen[key] {
+				continue
+			}
+			seen[key] = true
+			replayMu.Lock()
+			cmd := exec.Command(filepath.Join(verifDir, "tools", "replay.sh"), dir, "^"+test+"$")
+			o, _ := cmd.CombinedOutput()
+			replayMu.Unlock()
+			text := string(o)
+			if len(text) > 3000 {
+				text = text[:3000]
+			}
+			rep := strings.Contains(text, "VERIF-REPRODUCED")
+			kind := "known finding"
+			if fixed {
+				kind = "fixed defect"
+			}
+			res := "does not reproduce"
+			if rep {
+				res = "reproduces"
+			}
+			out = append(out, replayRun{fixed: fixed, reproduced: rep, test: dir + "/" + test, entry: line, output: text,
+				line: fmt.Sprintf("%s %s/%s: %s", kind, dir, test, res)})
+		}
+	}
+	return out
 }
